@@ -90,8 +90,9 @@ def ParsePrintFull : Prop :=
 /-- `parse_print` on the fragment `inFrag2` (see its doc-string): literals incl. both i64 boundary values and
 arbitrary strings (any escape table), variables, `!`, unary minus (`-(e)`, negative literals `(-n)`),
 `* + - == < <= in && ||` with the unparenthesised left-nested chains (`a + b + c`, `a - b - c`, `a && b && c` …),
-`if then else`, arbitrarily nested.  Missing towards `ParsePrintFull`: member access / method and function calls,
-`has`, `like`, `is`, entity literals, sets, records, slots. -/
+`e has attr` (identifier, reserved word or arbitrary string as attribute name), `if then else`, arbitrarily nested.
+Missing towards `ParsePrintFull`: member access / method and function calls, `like`, `is`, entity literals, sets,
+records, slots. -/
 theorem parse_print_partial (mustEscape : Char → Bool) (e : Expr) (h : inFrag2 e = true) :
     Parse.expr (Print.expr mustEscape e) = some e := by
   unfold Parse.expr Print.expr
@@ -133,6 +134,10 @@ theorem inFrag_parserImage : ∀ k e, fsize e ≤ k → inFrag2 e = true → Par
       simp only [inFrag2, Bool.and_eq_true] at hf
       simp only [fsize] at hk
       simp [ParserImage, ih a (by omega) hf.1.2, ih b (by omega) hf.2]
+    case hasAttr e' a =>
+      simp only [inFrag2] at hf
+      simp only [fsize] at hk
+      simp [ParserImage, ih e' (by omega) hf]
     all_goals (simp [inFrag2] at hf)
 
 -- non-vacuity: `if !(-(1) - (-9223372036854775808) < principal * 2) && true || "a\"b" == context then -5 else 7 in resource`
@@ -160,5 +165,11 @@ example : Print.expr (fun _ => false) chainSample =
        .lparen, .num 1, .minus, .lparen, .num 2, .minus, .num 3, .rparen, .rparen, .rparen,
      .andand, .ident "principal", .andand, .lparen, .ident "action", .oror, .ident "resource", .oror, .ident "false", .rparen] := by decide
 example : Parse.expr (Print.expr (fun _ => false) chainSample) = some chainSample := parse_print_partial _ _ (by decide)
+
+-- reserved words and non-identifiers as attribute names after `has`
+example : Print.expr (fun _ => false) (.hasAttr (.hasAttr (.var .context) "if") "a b") =
+    [.lparen, .ident "context", .ident "has", .str ['i', 'f'], .rparen, .ident "has", .str ['a', ' ', 'b']] := by decide
+example : Parse.expr (Print.expr (fun _ => true) (.unaryApp .not (.hasAttr (.hasAttr (.var .context) "if") "a\"b"))) =
+    some (.unaryApp .not (.hasAttr (.hasAttr (.var .context) "if") "a\"b")) := parse_print_partial _ _ (by decide)
 
 end Cedar.C05
